@@ -91,6 +91,8 @@ def planted(rng, p, th):
     rng.shuffle(fs)
     return c, fs
 
+PROFILES = ('debug', 'release')
+
 def cases(rng, tier):
     th = tier == 'thorough'
     out = []
@@ -209,4 +211,6 @@ def cases(rng, tier):
     out.append(Case('pm_coprime_witness', line('pm_coprime_witness', [1, 1], [1], 0), nontrivial=False, tag='witness-edge'))
     out.append(Case('pm_coprime_witness', line('pm_coprime_witness', [], [3], 0), nontrivial=False, tag='witness-edge'))
     out.append(Case('pm_coprime_witness', line('pm_coprime_witness', [], [3], 7), oracle=o_witness([], [3], 7), nontrivial=False, tag='witness-edge'))
+    # a slice of the cases again on the release build of the implementation (wrapping arithmetic, debug assertions off)
+    out += lib.release_slice(out, rng, 0.15, mode_ops=())
     return out
